@@ -33,11 +33,12 @@ R8  level-change altitude schedule ends exactly at the target altitude
 from __future__ import annotations
 
 import ast
+import re
 
 from ..algebra import normal_form, poly_equal
 from ..astutil import first_stmt, last_stmt  # noqa: F401
-from ..astutil import (ancestors, call_name, calls_in, guards_of, norm, single_def_value, stmt_of,
-                       stores_to, walk_no_nested)
+from ..astutil import (ancestors, call_name, calls_in, conjuncts, guards_of, local_defs, norm, single_def_value,
+                       stmt_of, stores_to, walk_no_nested)
 from ..cfg import CFG
 from ..loader import dotted_name
 from ..resolve import closure
@@ -56,99 +57,546 @@ WHOLE_BUFFER_OPS = {'np.resize', 'deepcopy', 'copy.deepcopy', 'isinstance', 'num
 
 
 # ----------------------------------------------------------------- R3 -----
+# Buffer-view discipline, decided by a forward must-dataflow over the CFG.
+#
+# Tracked values ("subjects"): an expression that reads a field value out of the
+# container's own table -- `self._data[k]`, `self._data.get(k[, d])` -- and every
+# local that may hold one (bound by assignment / unpacking / walrus / a loop over
+# `self._data.values()` / `.items()`).  Facts are *must* facts (joined by
+# intersection; no fact = "may be a capacity-length array"):
+#   ('k', subject, 'ARR')    the value is an ndarray on every path to here
+#   ('k', subject, 'OTHER')  the value is not a raw capacity-length buffer
+#   ('a', local, key)        the local holds self._data[key] for the current key
+#   ('dim', key, '')         the data-dictionary entry of key is not a per-point array
+#   ('i', index, 'ge0')      index >= 0          ('i', index, 'lt')   index < self._size
+# Facts come from the branch taken at a test (`isinstance`, `type() is`,
+# `is None`, dimension tests on the field's metadata, index comparisons, in any
+# boolean combination and either polarity), from `assert`, from `match` class
+# patterns, from `for i in range(self._size)`, and from the value a local is
+# bound to; they die when a name they mention is rebound or the table slot /
+# `_size` is written.
+_ND = {'np.ndarray', 'numpy.ndarray', 'ndarray'}
+_LEN_FREE_ATTRS = {'dtype', 'ndim', 'itemsize'}
+_MAPPING_API = {'keys', 'values', 'items', 'update'}
+_IDENT = re.compile(r'[A-Za-z_]\w*')
+
+
+def _size_text(e: ast.AST) -> bool:
+    return norm(e) in ('self._size', 'len(self)', 'self.__len__()')
+
+
 def _is_view_slice(sub: ast.Subscript) -> bool:
     s = sub.slice
-    return isinstance(s, ast.Slice) and s.lower is None and s.step is None and s.upper is not None \
-        and norm(s.upper) == 'self._size'
+    if not isinstance(s, ast.Slice) or s.upper is None or not _size_text(s.upper):
+        return False
+    lo_ok = s.lower is None or (isinstance(s.lower, ast.Constant) and s.lower.value in (0, None))
+    st_ok = s.step is None or (isinstance(s.step, ast.Constant) and s.step.value in (1, None))
+    return lo_ok and st_ok
 
 
-def _index_guarded(fn: ast.AST, idx: ast.expr, use_line: int) -> bool:
-    """copy_point idiom: `if idx < 0 or idx >= self._size: raise` earlier in fn."""
-    t = norm(idx)
-    for n in walk_no_nested(fn):
-        if isinstance(n, ast.If) and isinstance(first_stmt(n.body), ast.Raise) and n.lineno < use_line:
-            parts = {norm(v) for v in (n.test.values if isinstance(n.test, ast.BoolOp) and isinstance(n.test.op, ast.Or) else [n.test])}
-            if f'{t} < 0' in parts and (f'{t} >= self._size' in parts or f'{t} > self._size - 1' in parts):
-                return True
-    return False
+def _is_table(e: ast.AST) -> bool:
+    return norm(e) == 'self._data'
 
 
-def _narrowing(node: ast.AST, subject: str):
-    """'ndarray' | 'other' | None from enclosing isinstance / dimension tests."""
-    for t, pol, owner in guards_of(node):
-        for x in ast.walk(t):
-            if isinstance(x, ast.Call) and call_name(x) == 'isinstance' and len(x.args) == 2 \
-                    and norm(x.args[0]) == subject:
-                is_nd = 'ndarray' in norm(x.args[1])
-                # find the polarity of this atom: only handle the plain forms
-                if norm(t) == norm(x):
-                    if is_nd:
-                        return 'ndarray' if pol else 'other'
-                    return 'other' if pol else None
-        if 'Dimension.SPECIES in' in norm(t) and pol:
-            return 'other'
-        # elif chains: we are in the orelse of an `if isinstance(subject, <scalars>)`
-    # elif-chain narrowing: walk up If owners whose orelse contains us
-    for a in ancestors(node):
-        if isinstance(a, ast.If):
-            for x in ast.walk(a.test):
-                if isinstance(x, ast.Call) and call_name(x) == 'isinstance' and len(x.args) == 2 \
-                        and norm(x.args[0]) == subject and norm(a.test) == norm(x):
-                    in_body = any(node is s or _in(node, s) for s in a.body)
-                    if in_body:
-                        return 'ndarray' if 'ndarray' in norm(x.args[1]) else 'other'
+def _is_source(e: ast.AST) -> bool:
+    """expression that reads a field value out of self._data"""
+    if isinstance(e, ast.Subscript) and _is_table(e.value) and isinstance(e.ctx, ast.Load):
+        return True
+    return isinstance(e, ast.Call) and isinstance(e.func, ast.Attribute) and e.func.attr == 'get' \
+        and _is_table(e.func.value) and bool(e.args)
+
+
+def _key_of(e: ast.AST) -> str:
+    return norm(e.slice) if isinstance(e, ast.Subscript) else norm(e.args[0])
+
+
+def _table_iter(it: ast.AST) -> str | None:
+    """'values' | 'items' when `it` iterates the table's values"""
+    if isinstance(it, ast.Call) and isinstance(it.func, ast.Attribute) and _is_table(it.func.value) \
+            and it.func.attr in ('values', 'items') and not it.args:
+        return it.func.attr
     return None
 
 
-def _in(n, anc):
-    return any(a is anc for a in ancestors(n))
+def _bindings(t: ast.AST, v: ast.AST | None):
+    """(local name, value expr | None) pairs of a binding, element-wise through tuples"""
+    if isinstance(t, ast.Name):
+        yield t.id, v
+    elif isinstance(t, (ast.Tuple, ast.List)):
+        if isinstance(v, (ast.Tuple, ast.List)) and len(v.elts) == len(t.elts) \
+                and not any(isinstance(x, ast.Starred) for x in list(t.elts) + list(v.elts)):
+            for a, b in zip(t.elts, v.elts):
+                yield from _bindings(a, b)
+        else:
+            for a in t.elts:
+                yield from _bindings(a, None)
+    elif isinstance(t, ast.Starred):
+        yield from _bindings(t.value, None)
 
 
-def _classify_use(fn: ast.AST, e: ast.AST, subject: str):
-    """Classify how buffer-valued expression e (a `self._data[k]` or an alias
-    Name) is consumed.  Returns (ok, how)."""
-    p = getattr(e, '_parent', None)
-    nar = _narrowing(e, subject)
-    if nar == 'other':
-        return True, 'narrowed to a non-array value'
-    if isinstance(p, ast.Subscript) and p.value is e:
-        if _is_view_slice(p):
-            return True, 'view [: self._size]'
-        if isinstance(p.ctx, ast.Store) and norm(p.slice) == 'self._size':
-            return True, 'append slot [self._size] ='
-        if isinstance(p.ctx, ast.Store) and _index_guarded(fn, p.slice, p.lineno):
-            return True, f'element store at guarded index {norm(p.slice)}'
-        if _index_guarded(fn, p.slice, p.lineno):
-            return True, f'index {norm(p.slice)} proven in [0, _size) by a raise-guard'
-        if isinstance(p.slice, ast.Slice):
-            return False, f'sliced by {norm(p.slice)} instead of [: self._size]'
-        return False, (f'indexed by `{norm(p.slice)}` on the capacity-length buffer: a negative or '
-                       'unchecked index resolves against the allocated capacity, not the stored points')
-    if isinstance(p, ast.Call):
-        cn = call_name(p)
-        if e in p.args or any(k.value is e for k in p.keywords):
-            if cn in WHOLE_BUFFER_OPS:
+def _type_parts(T: ast.AST) -> list[str]:
+    if isinstance(T, ast.BinOp) and isinstance(T.op, ast.BitOr):
+        return _type_parts(T.left) + _type_parts(T.right)
+    if isinstance(T, (ast.Tuple, ast.List)):
+        return [x for e in T.elts for x in _type_parts(e)]
+    return [norm(T)]
+
+
+def _pattern_classes(p) -> list[str] | None:
+    if isinstance(p, ast.MatchClass) and not p.patterns and not p.kwd_patterns:
+        return [norm(p.cls)]
+    if isinstance(p, ast.MatchAs) and p.pattern is not None:
+        return _pattern_classes(p.pattern)
+    if isinstance(p, ast.MatchOr):
+        out = []
+        for q in p.patterns:
+            c = _pattern_classes(q)
+            if c is None:
+                return None
+            out += c
+        return out
+    return None
+
+
+def _index_facts(l, op, r, pol):
+    """facts about an index from `l op r` having truth value pol"""
+    neg = {ast.Lt: ast.GtE, ast.GtE: ast.Lt, ast.Gt: ast.LtE, ast.LtE: ast.Gt}
+    flip = {ast.Lt: ast.Gt, ast.Gt: ast.Lt, ast.LtE: ast.GtE, ast.GtE: ast.LtE}
+    t = type(op)
+    if t not in neg:
+        return
+    if not pol:
+        t = neg[t]
+
+    def size_minus_1(e):
+        return isinstance(e, ast.BinOp) and isinstance(e.op, ast.Sub) and _size_text(e.left) \
+            and isinstance(e.right, ast.Constant) and e.right.value == 1
+    for x, rel, b in ((l, t, r), (r, flip[t], l)):
+        c = b.value if isinstance(b, ast.Constant) and isinstance(b.value, int) and not isinstance(b.value, bool) else None
+        if c is not None and ((rel is ast.GtE and c >= 0) or (rel is ast.Gt and c >= -1)):
+            yield ('i', norm(x), 'ge0')
+        if (_size_text(b) and rel is ast.Lt) or (size_minus_1(b) and rel is ast.LtE):
+            yield ('i', norm(x), 'lt')
+
+
+class _Buffers:
+    """the analysis of one method"""
+
+    def __init__(self, fn: ast.AST, size_writers: set[str]):
+        self.fn = fn
+        self.size_writers = size_writers
+        self.g = CFG(fn)
+        self.aliases: set[str] = set()
+        self._find_aliases()
+        self.meta_of = self._metadata_names()
+        self.ins, _ = self.g.forward(frozenset(), self._transfer, lambda a, b: a & b,
+                                     branch_transfer=self._branch)
+
+    # -- which locals may hold a field value (flow-insensitive, to a fixpoint)
+    def may_source(self, v) -> bool:
+        if v is None:
+            return False
+        if _is_source(v) or (isinstance(v, ast.Name) and v.id in self.aliases):
+            return True
+        if isinstance(v, ast.IfExp):
+            return self.may_source(v.body) or self.may_source(v.orelse)
+        if isinstance(v, ast.NamedExpr):
+            return self.may_source(v.value)
+        if isinstance(v, ast.BoolOp):
+            return any(self.may_source(x) for x in v.values)
+        return False
+
+    def _find_aliases(self):
+        changed = True
+        while changed:
+            changed = False
+            for n in walk_no_nested(self.fn):
+                pairs = []
+                if isinstance(n, ast.Assign):
+                    for t in n.targets:
+                        pairs += list(_bindings(t, n.value))
+                elif isinstance(n, ast.AnnAssign) and n.value is not None:
+                    pairs += list(_bindings(n.target, n.value))
+                elif isinstance(n, ast.NamedExpr):
+                    pairs.append((n.target.id, n.value))
+                elif isinstance(n, (ast.For, ast.AsyncFor, ast.comprehension)):
+                    how, t = _table_iter(n.iter), n.target
+                    if how == 'values' and isinstance(t, ast.Name) and t.id not in self.aliases:
+                        self.aliases.add(t.id)
+                        changed = True
+                    elif how == 'items' and isinstance(t, (ast.Tuple, ast.List)) and len(t.elts) == 2 \
+                            and isinstance(t.elts[1], ast.Name) and t.elts[1].id not in self.aliases:
+                        self.aliases.add(t.elts[1].id)
+                        changed = True
+                for name, v in pairs:
+                    if name not in self.aliases and self.may_source(v):
+                        self.aliases.add(name)
+                        changed = True
+
+    def _metadata_names(self) -> dict[str, str]:
+        """locals that hold the data-dictionary entry of a key: `for k, f in
+        <...>_data_dictionary.items()` and `f = <...>_data_dictionary[k]`; only
+        when that is the local's single binding"""
+        out: dict[str, list] = {}
+        for n in walk_no_nested(self.fn):
+            if isinstance(n, (ast.For, ast.comprehension)) and isinstance(n.iter, ast.Call) \
+                    and isinstance(n.iter.func, ast.Attribute) and n.iter.func.attr == 'items' \
+                    and norm(n.iter.func.value) == 'self._data_dictionary' \
+                    and isinstance(n.target, (ast.Tuple, ast.List)) and len(n.target.elts) == 2 \
+                    and all(isinstance(x, ast.Name) for x in n.target.elts):
+                out.setdefault(n.target.elts[1].id, []).append(n.target.elts[0].id)
+            elif isinstance(n, ast.Assign) and len(n.targets) == 1 and isinstance(n.targets[0], ast.Name) \
+                    and isinstance(n.value, ast.Subscript) and norm(n.value.value) == 'self._data_dictionary':
+                out.setdefault(n.targets[0].id, []).append(norm(n.value.slice))
+        return {m: ks[0] for m, ks in out.items() if len(ks) == 1 and len(local_defs(self.fn, m)) == 1}
+
+    # -- subjects
+    def subject(self, e: ast.AST) -> str | None:
+        if _is_source(e):
+            return norm(e)
+        if isinstance(e, ast.Name) and e.id in self.aliases:
+            return e.id
+        if isinstance(e, ast.NamedExpr) and e.target.id in self.aliases:
+            return e.target.id
+        return None
+
+    def kind(self, st: frozenset, e: ast.AST) -> str:
+        """'ARR' | 'OTHER' | 'ANY' for the value of subject expression e in state st"""
+        s = self.subject(e)
+        keys = set()
+        if _is_source(e):
+            keys.add(_key_of(e))
+        keys |= {f[2] for f in st if f[0] == 'a' and f[1] == s}
+        if ('k', s, 'OTHER') in st or any(('dim', k, '') in st for k in keys):
+            return 'OTHER'
+        if ('k', s, 'ARR') in st:
+            return 'ARR'
+        # a fact about the table slot the local was read from holds for the local too
+        for k in keys:
+            for txt in (f'self._data[{k}]',):
+                if ('k', txt, 'OTHER') in st:
+                    return 'OTHER'
+                if ('k', txt, 'ARR') in st:
+                    return 'ARR'
+        return 'ANY'
+
+    # -- facts from a condition known to have truth value `pol`
+    def _refine(self, st: frozenset, test: ast.AST, pol: bool) -> frozenset:
+        for a, p in conjuncts(test, pol):
+            for w in ast.walk(a):
+                if isinstance(w, ast.NamedExpr):
+                    st = self._bind(st, w.target.id, w.value)
+            add = set()
+            if isinstance(a, ast.Call) and call_name(a) == 'isinstance' and len(a.args) == 2:
+                s = self.subject(a.args[0])
+                if s is not None:
+                    parts = _type_parts(a.args[1])
+                    has_nd = any(x in _ND for x in parts)
+                    only_nd = has_nd and all(x in _ND for x in parts)
+                    if p and only_nd:
+                        add.add(('k', s, 'ARR'))
+                    elif (p and not has_nd) or (not p and has_nd):
+                        add.add(('k', s, 'OTHER'))
+            elif isinstance(a, ast.Compare) and len(a.ops) == 1:
+                l, op, r = a.left, a.ops[0], a.comparators[0]
+                if isinstance(l, ast.Call) and call_name(l) == 'type' and len(l.args) == 1 \
+                        and isinstance(op, (ast.Is, ast.Eq, ast.IsNot, ast.NotEq)):
+                    s = self.subject(l.args[0])
+                    if s is not None and p == isinstance(op, (ast.Is, ast.Eq)):
+                        add.add(('k', s, 'ARR' if norm(r) in _ND else 'OTHER'))
+                elif isinstance(op, (ast.Is, ast.IsNot)) and isinstance(r, ast.Constant) and r.value is None:
+                    s = self.subject(l)
+                    if s is not None and p == isinstance(op, ast.Is):
+                        add.add(('k', s, 'OTHER'))
+                elif isinstance(op, (ast.In, ast.NotIn)) and norm(l).startswith('Dimension.') \
+                        and isinstance(r, ast.Attribute) and r.attr == 'dimensions':
+                    inside = p == isinstance(op, ast.In)
+                    dim = norm(l).split('.', 1)[1]
+                    if (dim in ('SPECIES', 'THRUST_MODE') and inside) or (dim == 'POINT' and not inside):
+                        m = r.value
+                        key = None
+                        if isinstance(m, ast.Name):
+                            key = self.meta_of.get(m.id)
+                        elif isinstance(m, ast.Subscript) and norm(m.value) == 'self._data_dictionary':
+                            key = norm(m.slice)
+                        if key is not None:
+                            add.add(('dim', key, ''))
+                elif isinstance(op, (ast.In, ast.NotIn)) and isinstance(r, ast.Call) and call_name(r) == 'range' \
+                        and len(r.args) == 1 and _size_text(r.args[0]):
+                    if p == isinstance(op, ast.In):
+                        add |= {('i', norm(l), 'ge0'), ('i', norm(l), 'lt')}
+                else:
+                    add |= set(_index_facts(l, op, r, p))
+            elif isinstance(a, ast.Compare) and p:
+                # chained: 0 <= i < self._size
+                left = a.left
+                for op, right in zip(a.ops, a.comparators):
+                    add |= set(_index_facts(left, op, right, True))
+                    left = right
+            if add:
+                out = set(st)
+                for f in add:
+                    if f[0] == 'k':
+                        out.discard(('k', f[1], 'ARR' if f[2] == 'OTHER' else 'OTHER'))
+                    out.add(f)
+                st = frozenset(out)
+        return st
+
+    # -- effects of statements
+    @staticmethod
+    def _kill_name(st: frozenset, name: str) -> frozenset:
+        """drop every fact that mentions local `name` (as the subject, inside a subject's key, or as an index)"""
+        return frozenset(f for f in st if name not in _IDENT.findall(f[1])
+                         and not (f[0] == 'a' and name in _IDENT.findall(f[2])))
+
+    def _bind(self, st: frozenset, name: str, v: ast.AST | None) -> frozenset:
+        new = set()
+        if v is not None:
+            s = self.subject(v)
+            if s == name:
+                return st
+            if s is not None:
+                k = self.kind(st, v)
+                if k != 'ANY':
+                    new.add(('k', name, k))
+                if _is_source(v) and name not in _IDENT.findall(_key_of(v)):
+                    new.add(('a', name, _key_of(v)))
+                new |= {('a', name, f[2]) for f in st if f[0] == 'a' and f[1] == s}
+            elif not self.may_source(v):
+                new.add(('k', name, 'OTHER'))     # a view, a copy, a constant, a call result ...
+        return frozenset(set(self._kill_name(st, name)) | new)
+
+    def _store(self, st, t):
+        if isinstance(t, ast.Subscript) and _is_table(t.value):
+            key = norm(t.slice)
+            return frozenset(f for f in st if not (
+                f[0] == 'k' and (f[1] == f'self._data[{key}]' or f[1].startswith(f'self._data.get({key}'))))
+        if isinstance(t, ast.Attribute) and norm(t) == 'self._size':
+            return frozenset(f for f in st if not (f[0] == 'i' and f[2] == 'lt'))
+        if isinstance(t, ast.Attribute) and norm(t) in ('self._data', 'self._data_dictionary'):
+            return frozenset(f for f in st if f[0] == 'i' or (f[0] == 'k' and 'self._data' not in f[1]))
+        return st
+
+    def _calls_effect(self, st, e):
+        for c in walk_no_nested(e):
+            if isinstance(c, ast.Call) and isinstance(c.func, ast.Attribute) and c.func.attr in self.size_writers \
+                    and (norm(c.func.value) == 'self' or
+                         (isinstance(c.func.value, ast.Call) and call_name(c.func.value) == 'super')):
+                st = frozenset(x for x in st if not (x[0] == 'i' and x[2] == 'lt'))
+        return st
+
+    def _transfer(self, node, st: frozenset) -> frozenset:
+        s = node.stmt
+        if s is None or node.kind in ('join', 'finally', 'dispatch', 'entry', 'exit', 'raise'):
+            return st
+        if node.kind == 'with':
+            for it in s.items:
+                st = self._calls_effect(st, it.context_expr)
+                if it.optional_vars is not None:
+                    for nm, _ in _bindings(it.optional_vars, None):
+                        st = self._bind(st, nm, None)
+            return st
+        if node.kind == 'except':
+            return self._bind(st, s.name, None) if getattr(s, 'name', None) else st
+        if node.kind in ('test', 'iter', 'match', 'case'):
+            head = {'test': getattr(s, 'test', None), 'iter': getattr(s, 'iter', None),
+                    'match': getattr(s, 'subject', None), 'case': getattr(s, 'guard', None)}[node.kind]
+            if head is not None:
+                st = self._calls_effect(st, head)
+                if node.kind != 'test':            # a walrus in a test is bound per atom by _refine
+                    for w in ast.walk(head):
+                        if isinstance(w, ast.NamedExpr):
+                            st = self._bind(st, w.target.id, w.value)
+            return st
+        st = self._calls_effect(st, s)
+        for w in walk_no_nested(s):
+            if isinstance(w, ast.NamedExpr):
+                st = self._bind(st, w.target.id, w.value)
+        if isinstance(s, ast.Assert):
+            return self._refine(st, s.test, True)
+        if isinstance(s, (ast.Assign, ast.AnnAssign)):
+            if s.value is None:
+                return st
+            for t in (s.targets if isinstance(s, ast.Assign) else [s.target]):
+                # simultaneous assignment: every right-hand side is read in the state before
+                pairs = list(_bindings(t, s.value))
+                bound = {nm for nm, _ in pairs}
+                news = set()
+                for nm, val in pairs:
+                    news |= {f for f in self._bind(st, nm, val) if f[0] in ('k', 'a') and f[1] == nm
+                             and not (f[0] == 'a' and bound & set(_IDENT.findall(f[2])))}
+                for nm in bound:
+                    st = self._kill_name(st, nm)
+                st = frozenset(set(st) | news)
+                for e in (t.elts if isinstance(t, (ast.Tuple, ast.List)) else [t]):
+                    st = self._store(st, e)
+        elif isinstance(s, ast.AugAssign):
+            st = self._bind(st, s.target.id, None) if isinstance(s.target, ast.Name) else self._store(st, s.target)
+        elif isinstance(s, ast.Delete):
+            for t in s.targets:
+                st = self._bind(st, t.id, None) if isinstance(t, ast.Name) else self._store(st, t)
+        elif isinstance(s, (ast.Import, ast.ImportFrom)):
+            for al in s.names:
+                st = self._bind(st, (al.asname or al.name).split('.')[0], None)
+        return st
+
+    def _branch(self, node, lab, st):
+        s = node.stmt
+        if node.kind == 'test':
+            return self._refine(st, s.test, lab == 't')
+        if node.kind == 'iter' and lab == 't':
+            for nm, _ in _bindings(s.target, None):
+                st = self._bind(st, nm, None)
+            t = s.target
+            if _table_iter(s.iter) == 'items' and isinstance(t, (ast.Tuple, ast.List)) and len(t.elts) == 2 \
+                    and all(isinstance(x, ast.Name) for x in t.elts):
+                st = frozenset(set(st) | {('a', t.elts[1].id, t.elts[0].id)})
+            if isinstance(t, ast.Name) and isinstance(s.iter, ast.Call) and call_name(s.iter) == 'range' \
+                    and not s.iter.keywords:
+                a = s.iter.args
+
+                def nonneg(e):
+                    return isinstance(e, ast.Constant) and isinstance(e.value, int) and e.value >= 0
+
+                def pos(e):
+                    return isinstance(e, ast.Constant) and isinstance(e.value, int) and e.value > 0
+                if (len(a) == 1 and _size_text(a[0])) or (
+                        len(a) in (2, 3) and nonneg(a[0]) and _size_text(a[1]) and (len(a) == 2 or pos(a[2]))):
+                    st = frozenset(set(st) | {('i', t.id, 'ge0'), ('i', t.id, 'lt')})
+            return st
+        if node.kind == 'case':
+            m = getattr(s, '_parent', None)
+            subj = self.subject(m.subject) if isinstance(m, ast.Match) else None
+            classes = _pattern_classes(s.pattern)
+            if subj is None or classes is None or (s.guard is not None and lab == 'f'):
+                return st
+            has_nd = any(c in _ND for c in classes)
+            only_nd = has_nd and all(c in _ND for c in classes)
+            out = set(st)
+            if lab == 't' and only_nd:
+                out.discard(('k', subj, 'OTHER'))
+                out.add(('k', subj, 'ARR'))
+            elif (lab == 't' and not has_nd) or (lab == 'f' and has_nd):
+                out.discard(('k', subj, 'ARR'))
+                out.add(('k', subj, 'OTHER'))
+            return frozenset(out)
+        return st
+
+    # -- the states in which a load is evaluated (one per CFG copy of its statement)
+    def states_at(self, e: ast.AST) -> list[frozenset]:
+        a, ids = e, []
+        while a is not None and not ids:
+            ids = [i for i in self.g.nodes_of(a) if self.g.nodes[i].kind not in ('join', 'finally', 'dispatch')]
+            a = getattr(a, '_parent', None)
+        out = []
+        for i in ids:
+            if i not in self.ins:
+                continue            # unreachable code
+            st = self.ins[i]
+            # short-circuit / conditional-expression / comprehension-filter guards inside the statement
+            for t, pol, owner in reversed(guards_of(e)):
+                if not isinstance(owner, (ast.If, ast.While)):
+                    st = self._refine(st, t, pol)
+            out.append(st)
+        return out
+
+    def index_proven(self, st: frozenset, idx: ast.AST) -> bool:
+        t = norm(idx)
+        return ('i', t, 'ge0') in st and ('i', t, 'lt') in st
+
+    # -- how one load of a subject is consumed
+    def classify(self, st: frozenset, e: ast.AST):
+        """(ok, how) for the use of subject expression e evaluated in state st; ok None = binding of a local"""
+        kind = self.kind(st, e)
+        if kind == 'OTHER':
+            return True, 'not a per-point array on any path that reaches this use'
+        p = getattr(e, '_parent', None)
+        # value positions that hand the value on unchanged
+        while isinstance(p, ast.IfExp) and e is not p.test:
+            e, p = p, getattr(p, '_parent', None)
+        if isinstance(p, ast.NamedExpr) and p.value is e:
+            return None, 'alias'
+        if isinstance(p, ast.Subscript) and p.value is e:
+            if _is_view_slice(p):
+                return True, 'view [: self._size]'
+            if isinstance(p.ctx, ast.Store) and _size_text(p.slice):
+                return True, 'append slot [self._size] ='
+            if not isinstance(p.slice, (ast.Slice, ast.Tuple)) and self.index_proven(st, p.slice):
+                return True, (f'index {norm(p.slice)} is in [0, _size) on every path that reaches this use')
+            if isinstance(p.slice, ast.Slice):
+                return False, f'sliced by {norm(p.slice)} instead of [: self._size]'
+            return False, (f'indexed by `{norm(p.slice)}` on the capacity-length buffer: a negative or '
+                           'unchecked index resolves against the allocated capacity, not the stored points')
+        if isinstance(p, ast.Call) and (e in p.args or any(k.value is e for k in p.keywords)):
+            cn = call_name(p)
+            if cn in WHOLE_BUFFER_OPS or cn == 'type':
                 return True, f'whole-buffer operation {cn}'
             return False, (f'raw capacity-length buffer passed to {cn}(): the unused tail takes part in '
                            'the computation')
-    if isinstance(p, ast.Attribute):
-        if p.attr in ('keys', 'values', 'items', 'update'):
-            return True, f'mapping API .{p.attr} (species-indexed value, not an array)'
-        return False, f'attribute .{p.attr} of the raw buffer'
-    if isinstance(p, ast.Compare) or isinstance(p, ast.Assert):
-        return True, 'comparison / assertion'
-    if isinstance(p, ast.AugAssign) and p.target is e:
-        return True, 'whole-value update'
-    if isinstance(p, ast.Return):
-        return False, 'raw buffer returned to the caller'
-    if isinstance(p, (ast.Assign, ast.AnnAssign)) and getattr(p, 'value', None) is e:
-        return None, 'alias'
-    return False, f'unrecognised use in `{norm(p)[:60]}`'
+        if isinstance(p, ast.Attribute):
+            if p.attr in _MAPPING_API and kind != 'ARR':
+                return True, f'mapping API .{p.attr} (species-indexed value, not an array)'
+            if p.attr in _LEN_FREE_ATTRS:
+                return True, f'.{p.attr} does not depend on the length'
+            return False, f'attribute .{p.attr} of the raw buffer'
+        if isinstance(p, ast.Compare):
+            if all(isinstance(o, (ast.Is, ast.IsNot)) for o in p.ops):
+                return True, 'identity comparison'
+            if kind == 'ARR':
+                return False, 'element-wise comparison of the raw capacity-length buffer (the unused tail takes part)'
+            return True, 'comparison'
+        if isinstance(p, ast.Assert):
+            return True, 'assertion'
+        if isinstance(p, ast.Match) and p.subject is e and all(
+                _pattern_classes(c.pattern) is not None or
+                (isinstance(c.pattern, ast.MatchAs) and c.pattern.pattern is None) for c in p.cases):
+            return True, 'dispatch on the class of the value'
+        if isinstance(p, ast.Return):
+            return False, 'raw buffer returned to the caller'
+        if isinstance(p, (ast.Assign, ast.AnnAssign)) and getattr(p, 'value', None) is e:
+            tgts = p.targets if isinstance(p, ast.Assign) else [p.target]
+            if all(isinstance(t, ast.Name) for t in tgts):
+                return None, 'alias'
+            return False, f'raw buffer stored as {norm(tgts[0])}'
+        if isinstance(p, (ast.Tuple, ast.List)) and isinstance(getattr(p, '_parent', None), ast.Assign) \
+                and p._parent.value is p:
+            i = p.elts.index(e)
+            if all(isinstance(t, (ast.Tuple, ast.List)) and len(t.elts) == len(p.elts) and isinstance(t.elts[i], ast.Name)
+                   for t in p._parent.targets):
+                return None, 'alias'
+        if isinstance(p, (ast.For, ast.comprehension)) and p.iter is e:
+            return False, 'iteration over the raw capacity-length buffer'
+        return False, f'unrecognised use in `{norm(p)[:60]}`'
+
+
+def _size_writers(classes) -> set[str]:
+    """names of methods of the container classes that (transitively, over self./super() calls) store self._size"""
+    meths = {}
+    for cls in classes:
+        for name, m in cls.methods.items():
+            meths.setdefault(name, []).append(m.node)
+    out: set[str] = set()
+    changed = True
+    while changed:
+        changed = False
+        for name, nodes in meths.items():
+            if name in out:
+                continue
+            for fn in nodes:
+                hit = any(norm(t) == 'self._size' for t, st, how in stores_to(fn)) or any(
+                    isinstance(c.func, ast.Attribute) and c.func.attr in out and name != '__init__'
+                    for c in calls_in(fn))
+                if hit:
+                    out.add(name)
+                    changed = True
+                    break
+    return out
 
 
 def rule_buffers(ctx):
     prog = ctx.prog
     classes = prog.subclasses_of('Container')
+    writers = _size_writers(classes)
     n_acc = 0
     for cls in classes:
         for meth in cls.methods.values():
@@ -156,58 +604,115 @@ def rule_buffers(ctx):
                 ctx.note(f'C02-R3: {meth.qualname} out of scope — {R3_OUT_OF_SCOPE[meth.qualname]}')
                 continue
             fn = meth.node
+            if not any(_is_source(n) or _table_iter(n) is not None for n in walk_no_nested(fn)):
+                continue
+            an = _Buffers(fn, writers)
             for n in walk_no_nested(fn):
-                if isinstance(n, ast.Subscript) and norm(n.value) == 'self._data' and isinstance(n.ctx, ast.Load):
-                    # skip when it is the target of an augmented assignment of the whole value
-                    subject = norm(n)
-                    ok, how = _classify_use(fn, n, subject)
-                    if ok is None:
-                        # alias: follow every load of the alias name
-                        st = stmt_of(n)
-                        tgt = st.targets[0] if isinstance(st, ast.Assign) else st.target
-                        if not isinstance(tgt, ast.Name):
-                            ctx.ob('C02-R3', meth, f'{subject} bound to {norm(tgt)}', False,
-                                   'raw buffer stored somewhere else', line=n.lineno)
-                            n_acc += 1
-                            continue
-                        alias = tgt.id
-                        for u in walk_no_nested(fn):
-                            if isinstance(u, ast.Name) and u.id == alias and isinstance(u.ctx, ast.Load) \
-                                    and u.lineno >= st.lineno:
-                                ok2, how2 = _classify_use(fn, u, alias)
-                                if ok2 is None:
-                                    ok2, how2 = False, 're-aliased'
-                                n_acc += 1
-                                ctx.ob('C02-R3', meth, f'{alias} (= {subject}) used as {norm(u._parent)[:50]}',
-                                       ok2, how2, line=u.lineno)
-                        continue
-                    n_acc += 1
-                    ctx.ob('C02-R3', meth, f'{subject} used as {norm(n._parent)[:50]}', ok, how, line=n.lineno)
+                s = an.subject(n) if isinstance(n, (ast.Subscript, ast.Call, ast.Name)) else None
+                if s is None or not isinstance(getattr(n, 'ctx', ast.Load()), ast.Load):
+                    continue
+                verdicts = [an.classify(st, n) for st in an.states_at(n)]
+                if not verdicts:
+                    continue                    # unreachable
+                if all(v[0] is None for v in verdicts):
+                    continue                    # binding of a local: its loads are judged where they happen
+                bad = [v for v in verdicts if v[0] is False]
+                ok, how = (False, bad[0][1]) if bad else (True, next(v[1] for v in verdicts if v[0]))
+                n_acc += 1
+                par = getattr(n, '_parent', None)
+                ctx.ob('C02-R3', meth, f'{s} used as {norm(par)[:50]}', ok, how, line=n.lineno)
     ctx.floor('C02-R3', n_acc, 20, 'reads of the per-point buffers in Container and subclasses')
-    # the view handed to users: __getattr__ returns the sliced view for arrays (covered above);
-    # growth keeps the stored prefix: np.resize to the new capacity
+
+    # growth keeps the stored prefix and enlarges every buffer to the new capacity
     cm = prog.module(CONT)
     ex = cm.func('Container._expand_capacity')
+    g = CFG(ex.node)
+    dom = g.dominators(edge_ok=lambda a, b, lab: lab != 'e')
+    caps = [(st, how) for t, st, how in stores_to(ex.node) if norm(t) == 'self._capacity']
     rs = [c for c in calls_in(ex.node) if call_name(c) in ('np.resize', 'numpy.resize')]
-    ok = bool(rs) and all(norm(c.args[1]) in ('(self._capacity,)', 'self._capacity') for c in rs)
-    cap = [st for t, st, how in stores_to(ex.node) if norm(t) == 'self._capacity']
-    ok = ok and len(cap) == 1 and isinstance(cap[0], ast.AugAssign) and isinstance(cap[0].op, ast.Add) \
-        and cap[0].lineno < rs[0].lineno
+
+    def grows(st, how):
+        if how == 'aug':
+            return isinstance(st.op, (ast.Add, ast.Mult))
+        v = st.value
+        if isinstance(v, ast.Name):
+            v = single_def_value(ex.node, v.id) or v
+        return isinstance(v, ast.BinOp) and isinstance(v.op, (ast.Add, ast.Mult)) and \
+            'self._capacity' in (norm(v.left), norm(v.right))
+
+    def new_capacity(e):
+        if isinstance(e, (ast.Tuple, ast.List)) and len(e.elts) == 1:
+            e = e.elts[0]
+        if norm(e) == 'self._capacity':
+            return True
+        return isinstance(e, ast.Name) and any(how == 'assign' and norm(st.value) == e.id for st, how in caps)
+    ok = len(caps) == 1 and grows(*caps[0]) and bool(rs)
+    why = 'growth no longer raises the capacity exactly once and resizes the arrays'
+    if ok:
+        capn = g.nodes_of(caps[0][0])
+        for c in rs:
+            st = stmt_of(c)
+            size = c.args[1] if len(c.args) > 1 else next((k.value for k in c.keywords if k.arg == 'new_shape'), None)
+            src = c.args[0] if c.args else None
+            back = isinstance(st, ast.Assign) and st.value is c and src is not None and _is_source(src) \
+                and all(isinstance(t, ast.Subscript) and _is_table(t.value) and norm(t.slice) == _key_of(src)
+                        for t in st.targets)
+            after = all(any(x in dom.get(i, ()) for x in capn) for i in g.nodes_of(st))
+            if size is None or not new_capacity(size):
+                ok, why = False, f'`{norm(c)[:60]}` does not resize to the new capacity'
+            elif not back:
+                ok, why = False, f'`{norm(st)[:60]}`: the enlarged array is not stored back into the slot it was read from'
+            elif not after:
+                ok, why = False, 'an array is resized before the capacity is raised'
     ctx.ob('C02-R3', ex, 'growth enlarges every buffer to the new capacity', ok,
-           'capacity raised first, every array resized to it' if ok else 'growth no longer resizes to the new capacity')
+           'capacity raised first, every array resized to it and stored back' if ok else why)
+
+    # append: there is room for slot _size when it is written, and the point is counted afterwards
     ap = cm.func('Container._append_from_dict')
     g = CFG(ap.node)
-    dom = g.dominators(edge_ok=lambda a, b, lab: lab != 'e')
-    grow = [n for n in g.nodes if n.kind == 'test' and norm(n.stmt.test) in (
-        'self._size == self._capacity', 'self._size >= self._capacity', 'self._capacity == self._size')]
-    wr = [n for n in g.nodes if n.kind == 'stmt' and isinstance(n.stmt, ast.Assign)
-          and norm(n.stmt.targets[0]).endswith('[self._size]')]
+
+    def room_branch(node, lab, st):
+        if node.kind != 'test':
+            return st
+        for a, p in conjuncts(node.stmt.test, lab == 't'):
+            if isinstance(a, ast.Compare) and len(a.ops) == 1:
+                l, op, r = a.left, type(a.ops[0]), a.comparators[0]
+                if not p:
+                    op = {ast.Lt: ast.GtE, ast.GtE: ast.Lt, ast.Gt: ast.LtE, ast.LtE: ast.Gt,
+                          ast.Eq: ast.NotEq, ast.NotEq: ast.Eq}.get(op)
+                sl, sr = _size_text(l), _size_text(r)
+                cl, cr = norm(l) == 'self._capacity', norm(r) == 'self._capacity'
+                # size < capacity, capacity > size; size != capacity (size never exceeds the capacity)
+                if (sl and cr and op in (ast.Lt, ast.NotEq)) or (cl and sr and op in (ast.Gt, ast.NotEq)):
+                    return True
+        return st
+
+    def room_transfer(node, st):
+        s = node.stmt
+        if s is None or node.kind in ('join', 'finally', 'dispatch'):
+            return st
+        head = {'test': getattr(s, 'test', None), 'iter': getattr(s, 'iter', None), 'stmt': s}.get(node.kind)
+        if head is None:
+            return st
+        if any(call_name(c) == 'self._expand_capacity' for c in calls_in(head)):
+            st = True
+        if node.kind == 'stmt' and any(norm(t) == 'self._size' for t, _, _ in stores_to(s)):
+            st = False
+        return st
+    ins, _ = g.forward(False, room_transfer, lambda a, b: a and b, branch_transfer=room_branch)
+    wr = [n for n in g.nodes if n.kind == 'stmt' and any(
+        isinstance(t, ast.Subscript) and _size_text(t.slice) and isinstance(t.value, ast.Subscript) and _is_table(t.value.value)
+        for t, _, _ in stores_to(n.stmt))]
     inc = [n for n in g.nodes if n.kind == 'stmt' and isinstance(n.stmt, ast.AugAssign)
-           and norm(n.stmt.target) == 'self._size']
-    ok = bool(grow) and bool(wr) and all(grow[0].id in dom[w.id] for w in wr) and len(inc) == 1 \
-        and all(g.reaches(w.id, inc[0].id) for w in wr) and not any(g.reaches(inc[0].id, w.id) for w in wr)
+           and norm(n.stmt.target) == 'self._size' and isinstance(n.stmt.op, ast.Add) and norm(n.stmt.value) == '1']
+    allsz = [n for n in g.nodes if n.kind == 'stmt' and any(norm(t) == 'self._size' for t, _, _ in stores_to(n.stmt))]
+    noexc = lambda a, b, lab: lab != 'e'   # noqa: E731
+    ok = bool(wr) and all(ins.get(w.id, False) for w in wr) and len(inc) == 1 and len(allsz) == 1 \
+        and all(g.reaches(w.id, inc[0].id, edge_ok=noexc) for w in wr) \
+        and not any(g.reaches(inc[0].id, w.id, edge_ok=noexc) for w in wr)
     ctx.ob('C02-R3', ap, 'append: grow when full, write slot _size, then count it', ok,
-           'capacity check dominates the slot writes; _size += 1 follows them' if ok else
+           'there is room (size < capacity, or the buffers were just grown) on every path to the slot writes; '
+           '_size += 1 follows them' if ok else
            'append ordering changed (write past capacity, or size counted before the write)')
 
 
